@@ -137,6 +137,11 @@ def main() -> int:
     _V = Verifier(repo, reg, Spec, timeout_ms=timeout_ms)
     _V.only_clauses = cfg.get("only_clauses")
     keys = expand_keys(repo, reg, pid)
+    # functions whose contracts belong to another property but on which this property's statement depends
+    for dep in cfg.get("depends", []):
+        for k2 in expand_keys(repo, reg, dep):
+            if k2 not in keys:
+                keys.append(k2)
     if a.only:
         keys = [k for k in keys if k in a.only.split(",")]
     def _for(p):
